@@ -199,6 +199,9 @@ func exec(op string) string {
 	if len(w) == 0 {
 		return "bad-op"
 	}
+	if res, ok := execGrowth(w); ok {
+		return res
+	}
 	switch {
 	case w[0] == "cfg" && len(w) == 4:
 		setCfg(w[1] == "1", w[2] == "1", w[3] == "1")
@@ -724,8 +727,10 @@ func genSizeStr(r *hx.Rng, dist map[string]int) string {
 
 // genOp produces one op line.
 func genOp(r *hx.Rng, dist map[string]int) string {
-	c := r.Intn(128)
+	c := r.Intn(146)
 	switch {
+	case c >= 128:
+		return genGrowthOp(r, dist)
 	case c >= 124:
 		bal := genNat(r, dist)
 		var amt string
